@@ -30,11 +30,11 @@ print('NAMES' + json.dumps(out))
 """
 
 
-def fresh_import(mods, cwd):
+def fresh_import(mods, cwd, flags=()):
     env = dict(os.environ)
     env["PYTHONPATH"] = REPO
     env["PYTHONDONTWRITEBYTECODE"] = "1"
-    p = subprocess.run([PY, "-c", CODE] + list(mods), cwd=cwd, env=env, stdout=subprocess.PIPE,
+    p = subprocess.run([PY] + list(flags) + ["-c", CODE] + list(mods), cwd=cwd, env=env, stdout=subprocess.PIPE,
                        stderr=subprocess.PIPE, timeout=300)
     names = None
     for line in p.stdout.decode("utf-8", "replace").splitlines():
@@ -114,6 +114,25 @@ def _check(run, replay, work):
                 run.model_drift("Imports.tla predicts `import {}` fails ({} at {}) but the interpreter succeeds".format(
                     m, mv["failed"], mv["at"]))
     run.sample({"start": [starts[0]], "model": model_single[(starts[0],)], "real_rc": real_single[starts[0]][0]})
+    # "a fresh interpreter" is not one configuration: the same single imports with assertions and docstrings stripped (-OO; -O too in the
+    # thorough tier).  What an import statement does does not depend on these flags -- the model has one verdict per module -- so a module
+    # that imports plainly and fails here fails through something its top-level code computes (a `__doc__` that is None, an `assert`)
+    for flags in ((("-OO",),) if run.tier == "quick" else (("-OO",), ("-O",))):
+        with ThreadPoolExecutor(max_workers=NCPU) as ex:
+            flagged = dict(zip(starts, ex.map(lambda m: fresh_import([m], cwd, flags), starts)))
+        for m in starts:
+            rc, names, err = flagged[m]
+            run.replayed += 1
+            if rc != 0 and real_single[m][0] == 0:
+                run.violation("`python {} -c 'import {}'` fails in a fresh interpreter: {}".format(" ".join(flags), m, err),
+                              {"kind": "single", "start": [m], "flags": list(flags)}, key=(m, flags))
+            elif rc == 0:
+                run.held((m, flags))
+                if names[m] != single_names.get(m, names[m]):
+                    run.violation("`import {}` leaves other public names bound under {}: {}".format(
+                        m, " ".join(flags), sorted(set(names[m]) ^ set(single_names[m]))[:6]),
+                        {"kind": "single", "start": [m], "flags": list(flags)}, key=(m, flags, "names"))
+    run.extra["interpreter_flag_sets"] = ["", "-OO"] + ([] if run.tier == "quick" else ["-O"])
 
     # ---------------- TLC: all ordered pairs (exhaustive in the model, both tiers) ----------------
     r = run.tlc("Imports", "MC_Imports_pairs.cfg", expect_ok=False, shards=NCPU, spec_dir=specdir,
